@@ -22,11 +22,15 @@ type SOp struct {
 	Ref  string `json:"ref,omitempty"`
 	Task int    `json:"task,omitempty"`
 	How  string `json:"how,omitempty"` // reopen: new | fs | tar
+	Var  int    `json:"var,omitempty"` // tag: the descriptor carries the annotation variant=<Var> (0 = plain)
 }
 
 func (o SOp) String() string {
 	switch o.Op {
 	case "tag":
+		if o.Var > 0 {
+			return fmt.Sprintf("tag(n%d#v%d,%q)", o.Node, o.Var, o.Ref)
+		}
 		return fmt.Sprintf("tag(n%d,%q)", o.Node, o.Ref)
 	case "resolve", "untag":
 		return fmt.Sprintf("%s(%q)", o.Op, o.Ref)
@@ -91,17 +95,25 @@ type SModel struct {
 	autoGC  bool
 	present map[int]bool
 	tags    map[string]int
-	indexed map[int]bool // OCI: has an index entry (tagged or by digest)
+	tagVar  map[string]int // descriptor variant the reference was tagged with
+	names   map[string]int // file store: file name -> node that holds it
+	indexed map[int]bool   // OCI: has an index entry (tagged or by digest)
 	// set when the history entered the corner the statement of C09 leaves open
 	Ambiguous string
 }
 
 func NewSModel(g *Graph, kind string, autoGC bool) *SModel {
-	return &SModel{g: g, kind: kind, autoGC: autoGC, present: map[int]bool{}, tags: map[string]int{}, indexed: map[int]bool{}}
+	return &SModel{g: g, kind: kind, autoGC: autoGC, present: map[int]bool{}, tags: map[string]int{}, tagVar: map[string]int{}, names: map[string]int{}, indexed: map[int]bool{}}
 }
 
 func (m *SModel) Clone() *SModel {
-	c := &SModel{g: m.g, kind: m.kind, autoGC: m.autoGC, present: map[int]bool{}, tags: map[string]int{}, indexed: map[int]bool{}, Ambiguous: m.Ambiguous}
+	c := &SModel{g: m.g, kind: m.kind, autoGC: m.autoGC, present: map[int]bool{}, tags: map[string]int{}, tagVar: map[string]int{}, names: map[string]int{}, indexed: map[int]bool{}, Ambiguous: m.Ambiguous}
+	for k, v := range m.tagVar {
+		c.tagVar[k] = v
+	}
+	for k, v := range m.names {
+		c.names[k] = v
+	}
 	for k, v := range m.present {
 		if v {
 			c.present[k] = true
@@ -130,7 +142,7 @@ func (m *SModel) Key() string {
 	}
 	sort.Strings(refs)
 	for _, r := range refs {
-		fmt.Fprintf(&sb, "%q=%d,", r, m.tags[r])
+		fmt.Fprintf(&sb, "%q=%d#%d,", r, m.tags[r], m.tagVar[r])
 	}
 	if m.kind == "oci" {
 		for _, i := range sortedKeys(m.indexed) {
@@ -177,10 +189,14 @@ func (m *SModel) Apply(op SOp) SRes {
 	}
 	switch op.Op {
 	case "push":
-		if m.present[n] {
-			if m.kind == "file" && node.Spec.Title != "" {
+		if m.kind == "file" && node.Spec.Title != "" {
+			// a named file: the name is taken by whoever pushed under it first
+			if _, taken := m.names[node.Spec.Title]; taken {
 				return SRes{Err: "dupname"}
 			}
+			m.names[node.Spec.Title] = n
+		}
+		if m.present[n] {
 			return SRes{Err: "exists"}
 		}
 		m.present[n] = true
@@ -203,6 +219,7 @@ func (m *SModel) Apply(op SOp) SRes {
 			return SRes{Err: "notfound"}
 		}
 		m.tags[op.Ref] = n
+		m.tagVar[op.Ref] = op.Var
 		if m.kind == "oci" {
 			m.indexed[n] = true
 		}
@@ -215,7 +232,7 @@ func (m *SModel) Apply(op SOp) SRes {
 		if !ok {
 			return SRes{Err: "notfound"}
 		}
-		return SRes{Desc: descKey(g.Nodes[t].Desc)}
+		return SRes{Desc: modelResolveKey(g.Nodes[t].Desc, m.tagVar[op.Ref])}
 	case "preds":
 		return SRes{List: m.predsOf(n)}
 	case "untag":
@@ -226,6 +243,7 @@ func (m *SModel) Apply(op SOp) SRes {
 			return SRes{Err: "notfound"}
 		}
 		delete(m.tags, op.Ref)
+		delete(m.tagVar, op.Ref)
 		return SRes{}
 	case "tags":
 		return SRes{List: m.tagList()}
@@ -250,8 +268,35 @@ func (m *SModel) remove(n int) {
 	for r, t := range m.tags {
 		if t == n {
 			delete(m.tags, r)
+			delete(m.tagVar, r)
 		}
 	}
+}
+
+// resolveKey renders a resolved descriptor: content identity plus the variant annotation.
+func resolveKey(d ocispec.Descriptor) string {
+	return descKey(d) + "#" + d.Annotations["variant"]
+}
+
+func modelResolveKey(d ocispec.Descriptor, v int) string {
+	if v == 0 {
+		return descKey(d) + "#"
+	}
+	return descKey(d) + "#" + fmt.Sprint(v)
+}
+
+// descVariant is the descriptor a tag operation presents.
+func descVariant(d ocispec.Descriptor, v int) ocispec.Descriptor {
+	if v == 0 {
+		return d
+	}
+	ann := map[string]string{}
+	for k, x := range d.Annotations {
+		ann[k] = x
+	}
+	ann["variant"] = fmt.Sprint(v)
+	d.Annotations = ann
+	return d
 }
 
 // deleteCascade implements the statement of C09 for Delete with AutoGC.
@@ -417,13 +462,13 @@ func execOp(ctx context.Context, st any, g *Graph, op SOp) SRes {
 		ok, err := st.(content.ReadOnlyStorage).Exists(ctx, node.Desc)
 		return SRes{Err: errClass(err), Bool: ok}
 	case "tag":
-		return SRes{Err: errClass(st.(content.Tagger).Tag(ctx, node.Desc, op.Ref))}
+		return SRes{Err: errClass(st.(content.Tagger).Tag(ctx, descVariant(node.Desc, op.Var), op.Ref))}
 	case "resolve":
 		d, err := st.(content.Resolver).Resolve(ctx, op.Ref)
 		if err != nil {
 			return SRes{Err: errClass(err)}
 		}
-		return SRes{Desc: descKey(d)}
+		return SRes{Desc: resolveKey(d)}
 	case "preds":
 		ds, err := st.(content.PredecessorFinder).Predecessors(ctx, node.Desc)
 		if err != nil {
@@ -520,7 +565,7 @@ func takeSnapshot(st storeAPI, g *Graph, withTags bool, withDigest bool) *Snapsh
 		if err != nil {
 			s.Resolve[ref] = "!" + errClass(err)
 		} else {
-			s.Resolve[ref] = descKey(d)
+			s.Resolve[ref] = resolveKey(d)
 		}
 	}
 	if withTags {
@@ -548,7 +593,7 @@ func modelSnapshot(m *SModel) *Snapshot {
 	}
 	for _, ref := range refUniverse {
 		if t, ok := m.tags[ref]; ok {
-			s.Resolve[ref] = descKey(g.Nodes[t].Desc)
+			s.Resolve[ref] = modelResolveKey(g.Nodes[t].Desc, m.tagVar[ref])
 		} else {
 			s.Resolve[ref] = "!notfound"
 		}
@@ -597,9 +642,16 @@ func diffSnapshots(a, b *Snapshot, an, bn string, g *Graph, compareTags, compare
 }
 
 func shortKey(g *Graph, k string) string {
+	base, variant := k, ""
+	if i := strings.LastIndex(k, "#"); i >= 0 {
+		base, variant = k[:i], k[i:]
+		if variant == "#" {
+			variant = ""
+		}
+	}
 	for _, n := range g.Nodes {
-		if descKey(n.Desc) == k {
-			return fmt.Sprintf("n%d", n.ID)
+		if descKey(n.Desc) == base {
+			return fmt.Sprintf("n%d%s", n.ID, variant)
 		}
 	}
 	return k
